@@ -355,7 +355,7 @@ func runPlan(it *item, port int) *result {
 		ev := hx.Event{"op": op, "task": task, "k": k, "das": hx.B(st, "das"), "ok": true, "fired": false, "ncalls": 0,
 			"val": "", "cpu": -1, "win": 0}
 		if op == "restart" && !(it.Image != nil && i == it.Next) {
-			// hand the persisted state over to a fresh process
+			// hand the persisted state over to a fresh process (pending registrations die with this one)
 			im := r.env.Store.Export()
 			return &result{ID: id, Cont: &item{Plan: p, Idx: it.Idx, Next: i, Events: events, Image: &im, Quiet: quiet}}
 		}
@@ -364,9 +364,16 @@ func runPlan(it *item, port int) *result {
 			lifeenv.Labeled(id, "reload", func() { r.env.CDC.ReloadTask() })
 		case "settle":
 			r.settle()
+		case "release":
+			c, _ := lifeenv.CollByName(collOf[task])
+			r.env.Gate.Release(c.ID)
 		default:
 			var err error
 			var val string
+			if hx.B(st, "hold") { // slow MQ: the registrations of this task's streams block until a "release" step
+				c, _ := lifeenv.CollByName(collOf[task])
+				r.env.Gate.Hold(c.ID)
+			}
 			r.env.Store.Arm(k)
 			lifeenv.Labeled(id, task, func() { val, err = r.call(op, task, hx.B(st, "das")) })
 			fired, n := r.env.Store.Disarm()
@@ -386,6 +393,9 @@ func runPlan(it *item, port int) *result {
 		events = append(events, ev)
 	}
 	// release what the plan left behind (not part of the trace)
+	for _, c := range lifeenv.Catalog {
+		r.env.Gate.Release(c.ID)
+	}
 	for _, t := range tasks {
 		_, _ = r.env.CDC.Delete(&request.DeleteRequest{TaskID: r.real[t], IgnoreNotFound: true})
 	}
@@ -472,7 +482,7 @@ type obs struct {
 	ent                    map[string]int
 	quit                   map[string]bool
 	reg, rpc, sub          map[string]int
-	seekok                 map[string]bool
+	seekok, held           map[string]bool
 	gl, ge, gp, gw         map[string]int
 	gu, gup, asleep        int
 	classes                []string
@@ -481,7 +491,7 @@ type obs struct {
 func (r *runner) snapshot() *obs {
 	o := &obs{get: map[string]string{}, list: map[string]string{}, stored: map[string]string{}, mem: map[string]string{},
 		nck: map[string]int{}, ent: map[string]int{"a1": -1, "a2": -1}, quit: map[string]bool{},
-		reg: map[string]int{}, rpc: map[string]int{}, sub: map[string]int{}, seekok: map[string]bool{},
+		reg: map[string]int{}, rpc: map[string]int{}, sub: map[string]int{}, seekok: map[string]bool{}, held: map[string]bool{},
 		gl: map[string]int{}, ge: map[string]int{}, gp: map[string]int{}, gw: map[string]int{}}
 	env := r.env
 	// goroutines first (they are what is still winding down)
@@ -571,6 +581,7 @@ func (r *runner) snapshot() *obs {
 			}
 		}
 		o.seekok[t] = seekok
+		o.held[t] = env.Gate.Held(c.ID)
 	}
 	o.gauge = lifeenv.Gauge()
 	sort.Strings(o.classes)
@@ -583,6 +594,12 @@ func (r *runner) residue(o *obs) string {
 	var res []string
 	running := map[string]bool{}
 	for _, t := range tasks {
+		if o.held[t] { // registrations blocked in the MQ client: nothing to wait for
+			if o.mem[t] == "Running" {
+				running[r.tgt(t)] = true
+			}
+			continue
+		}
 		if o.mem[t] == "Running" {
 			running[r.tgt(t)] = true
 			c, _ := lifeenv.CollByName(collOf[t])
@@ -615,7 +632,7 @@ func (r *runner) quietEnough(o *obs) bool { return r.residue(o) == "" }
 
 // key: the part of an observation that must have stopped changing before it is logged
 func (o *obs) key() string {
-	b, _ := json.Marshal([]interface{}{o.mem, o.stored, o.gauge, o.ent, o.quit, o.reg, o.rpc, o.sub, o.gl, o.ge, o.gp, o.gu, o.gup})
+	b, _ := json.Marshal([]interface{}{o.held, o.mem, o.stored, o.gauge, o.ent, o.quit, o.reg, o.rpc, o.sub, o.gl, o.ge, o.gp, o.gu, o.gup})
 	return string(b)
 }
 
@@ -650,7 +667,7 @@ func (r *runner) observe(ev hx.Event) {
 	r.lastResidue = r.residue(o)
 	ev["get"], ev["list"], ev["listok"], ev["stored"], ev["mem"] = o.get, o.list, o.listok, o.stored, o.mem
 	ev["gauge"], ev["nck"], ev["ent"], ev["quit"] = o.gauge, o.nck, o.ent, o.quit
-	ev["reg"], ev["rpc"], ev["sub"], ev["seekok"] = fill(o.reg), fill(o.rpc), fill(o.sub), o.seekok
+	ev["reg"], ev["rpc"], ev["sub"], ev["seekok"], ev["held"] = fill(o.reg), fill(o.rpc), fill(o.sub), o.seekok, o.held
 	ev["gl"], ev["ge"], ev["gp"], ev["gu"], ev["gw"] = fill(o.gl), fill(o.ge), fill(o.gp), o.gu, fill(o.gw)
 	ev["gup"] = o.gup
 	ev["tgt"] = map[string]string{"t1": r.tgt("t1"), "t2": r.tgt("t2")}
